@@ -45,7 +45,7 @@ def _enabled(st):
         out += [CONN_OK, CONN_FAIL]
     if conn and not boot:
         out.append(BOOT)
-    if boot and acks < 3 and not nack:
+    if boot and acks < 3:
         out += [ACK, NACK]
     if acks >= 1:
         out += [P50, P100]
@@ -69,7 +69,10 @@ def _step(st, e):
     if e == ACK:
         acks += 1
     if e == NACK:
+        # the setup of this control connection has failed: TorProcessProtocol will try again at the next listener line
         nack = True
+        attempt = conn = boot = False
+        acks = 0
     if e == TIMEOUT:
         timed = True
     if e == EXIT:
@@ -175,6 +178,7 @@ class FakeConfig(object):
 def _run(order, with_timeout, with_config=False):
     clock = task.Clock()
     ctl = FakeControl()
+    ctls = []
     attempts = []
 
     def creator():
@@ -218,6 +222,10 @@ def _run(order, with_timeout, with_config=False):
                     return R('not-exactly-one-control-connection-attempt-outstanding', '%d (order %r)', len(pending), [NAMES[x] for x in order[:i + 1]])
                 if e == CONN_OK:
                     connected = True
+                    if ctls:
+                        ctl = FakeControl()      # every control connection is a new protocol object
+                        boot = False
+                    ctls.append(ctl)
                     pending[0].callback(ctl)
                 else:
                     pending[0].errback(Failure(error.ConnectionRefusedError('no')))
@@ -248,18 +256,22 @@ def _run(order, with_timeout, with_config=False):
             else:
                 tr.exited = True
                 ended = True
-                pp.processExited(Failure(error.ProcessTerminated(1, None, None)))
-                pp.processEnded(Failure(error.ProcessTerminated(1, None, None)))
+                # the way the process ends varies with the position: exit status 1, or a clean exit (status 0, Twisted's ProcessDone)
+                how = error.ProcessDone(0) if i % 2 else error.ProcessTerminated(1, None, None)
+                pp.processExited(Failure(how))
+                pp.processEnded(Failure(how))
             # ---- monitors after every step
             if first.fired > 1:
                 return R('launch-result-fired-twice')
-            if first.ok:
+            if first.ok and takeown_written_at_success is None:
+                # (judged at the moment of success)
                 if not (connected and boot and prog100):
                     return R('launch-succeeded-before-full-bootstrap', 'order %r', [NAMES[x] for x in order[:i + 1]])
-                if takeown_written_at_success is None:
+                if True:
+                    # ... on the control connection that reported 100%
                     takeown_written_at_success = any(c == 'TAKEOWNERSHIP' for c, _d in ctl.cmds)
                     if not takeown_written_at_success:
-                        return R('launch-succeeded-before-ownership-was-requested', 'order %r', [NAMES[x] for x in order[:i + 1]])
+                        return R('launch-succeeded-before-ownership-was-requested', 'connection #%d, order %r', len(ctls), [NAMES[x] for x in order[:i + 1]])
             if ended and first.fired != 1:
                 return R('launch-result-not-failed-after-exit-or-timeout', 'order %r', [NAMES[x] for x in order[:i + 1]])
         # ownership: once everything was acknowledged the reset of __OwningControllerProcess must have been written
@@ -315,6 +327,25 @@ def c19_after_bootstrap(ia: int, ib: int, with_timeout: bool, with_config: bool,
     """every causally possible sequence of k events after {listener line, connected, bootstrapped, SETEVENTS acknowledged};
     with_config: a not-yet-attached TorConfig is passed, whose attach_protocol() stays outstanding"""
     return _cond_body(k, True, part, ia, ib, with_timeout, with_config)
+
+
+PREFIX2 = (OUT_L, CONN_OK, BOOT, ACK, NACK, OUT_L, CONN_OK, BOOT)
+
+
+@cond(quick=dict(budget=150))
+def c19_second_connection(ia: int, ib: int, with_timeout: bool) -> str:
+    """the first control connection's ownership request is rejected, a second listener line leads to a second connection:
+    every causally possible sequence of 3 further events"""
+    key = ('second', 3)
+    if key not in _SEQ:
+        _SEQ[key] = sequences(3, PREFIX2)
+    seqs = _SEQ[key]
+    ia = api.pick(ia, 0, (len(seqs) - 1) // 40)
+    ib = api.pick(ib, 0, 39)
+    idx = 40 * ia + ib
+    assume(idx < len(seqs))
+    with api.no_tracing():
+        return _run(seqs[idx], True if with_timeout else False, False)
 
 
 # ------------------------------------------------------------------ temporary directory (real launch())
